@@ -159,3 +159,161 @@ def units_for(prop, tier):
         outside=["slice_file's occurrence/invariant heuristics", "format_spec mini-language semantics"],
         witnesses_required=["escaped", "templated"], sharded=True, timeout_s=200 if tier == "quick" else 1500)
         for K in ([1, 2] if tier == "quick" else [2, 3])]
+
+
+# ---------------------------------------------------------------- whole PythonTemplater.process on small real templates
+
+PIECES = ["a ", "b", "{x}", "{y}", "{{", "}}", " "]
+XVALS = ["", "v", "b"]
+YVALS = ["", "a ", "w"]
+
+
+def check_map(src, tf, control_flow_free=True):
+    """The C07 clauses on a real TemplatedFile; returns a list of problems."""
+    problems = []
+    if "".join(r.raw for r in tf.raw_sliced) != src:
+        problems.append("raw slices do not tile the source")
+    pos = 0
+    for r in tf.raw_sliced:
+        if r.source_idx != pos:
+            problems.append(f"raw slice {r.raw!r} starts at {r.source_idx}, expected {pos}")
+        pos += len(r.raw)
+    tp, sp = 0, 0
+    for s in tf.sliced_file:
+        if s.templated_slice.start != tp:
+            problems.append(f"rendered slices not contiguous at {s}")
+        tp = s.templated_slice.stop
+        if not (0 <= s.source_slice.start <= s.source_slice.stop <= len(src)):
+            problems.append(f"source slice outside the file: {s}")
+        if control_flow_free:
+            # a templater without control flow maps the source left to right without gaps or overlaps
+            if s.source_slice.start != sp:
+                problems.append(f"source text {src[sp:s.source_slice.start]!r} at {sp} is mapped by no slice (next slice {s})")
+            sp = s.source_slice.stop
+        if s.slice_type == "literal" and tf.templated_str[s.templated_slice] and tf.templated_str[s.templated_slice] != src[s.source_slice]:
+            problems.append(f"literal slice {s} maps {src[s.source_slice]!r} to {tf.templated_str[s.templated_slice]!r}")
+    if tp != len(tf.templated_str):
+        problems.append("rendered slices do not cover the output")
+    if control_flow_free and sp != len(src):
+        problems.append(f"source tail {src[sp:]!r} is mapped by no slice")
+    return problems
+
+
+def run_process(src, ctx):
+    tf, _ = PythonTemplater(override_context=ctx).process(in_str=src, fname="f.sql")
+    return tf
+
+
+def make_process(n_pieces, prop):
+    def factory(excluded=frozenset()):
+        def harness(c):
+            n = int(fresh_int(c, "n_pieces", 1, n_pieces))
+            src = "".join(choose(c, f"piece{i}", PIECES) for i in range(n))
+            ctx = {"x": choose(c, "x_value", XVALS), "y": choose(c, "y_value", YVALS)}
+            try:
+                exp = src.format(**ctx)
+            except Exception:
+                from symlite.core import Abort
+                raise Abort()  # not a valid format string: outside the property
+            if "PY_COLLIDE" in excluded and _collides(src, ctx):
+                from symlite.core import Abort
+                raise Abort()
+            tf = run_process(src, ctx)  # REAL
+            if any(s.slice_type == "templated" and s.templated_slice.start == s.templated_slice.stop for s in tf.sliced_file):
+                c.witness("empty_rendering_field")
+            c.witness("rendered")
+            if prop == "C09":
+                return tf.templated_str == exp
+            if prop == "C01":
+                return not lex_problems(src, tf)
+            return not check_map(src, tf, control_flow_free=False)
+        return harness
+    return factory
+
+
+def _collides(src, ctx):
+    """known finding PY_COLLIDE: a context value whose text also occurs as (part of) literal text of the template, or a
+    literal occurring more than once, defeats the occurrence-based slicing heuristics."""
+    import string
+    lits = [lit for lit, *_ in string.Formatter().parse(src) if lit]
+    joined = "".join(lits)
+    for v in ctx.values():
+        if v and (v in joined or any(lt and lt in v for lt in lits)):
+            return True
+    rendered = src.format(**ctx)
+    for lt in lits:
+        if lt and (rendered.count(lt) > 1 or src.count(lt) > 1):
+            return True
+    return False
+
+
+def replay_process(n_pieces, prop):
+    def rp(cex):
+        n = int(cex.get("n_pieces", 1))
+        src = "".join(PIECES[int(cex.get(f"piece{i}", 0))] for i in range(n))
+        ctx = {"x": XVALS[int(cex.get("x_value", 0))], "y": YVALS[int(cex.get("y_value", 0))]}
+        try:
+            exp = src.format(**ctx)
+        except Exception:
+            return None
+        try:
+            tf = run_process(src, ctx)
+        except Exception as e:
+            return f"python templater on {src!r} with {ctx} raises {type(e).__name__}: {str(e)[:100]}"
+        if prop == "C09":
+            return None if tf.templated_str == exp else f"{src!r} with {ctx}: renders {tf.templated_str!r}, str.format gives {exp!r}"
+        if prop == "C01":
+            p = lex_problems(src, tf)
+            return f"python templater, {src!r} with {ctx} -> {tf.templated_str!r}: " + "; ".join(p[:3]) if p else None
+        p = check_map(src, tf, control_flow_free=False)
+        return f"python templater, {src!r} with {ctx} -> {tf.templated_str!r}, slices {[(s.slice_type, s.source_slice.start, s.source_slice.stop, s.templated_slice.start, s.templated_slice.stop) for s in tf.sliced_file]}: " + "; ".join(p[:3]) if p else None
+    return rp
+
+
+def lex_problems(src, tf):
+    """C01's statement on the real lexer output for a real TemplatedFile."""
+    from sqlfluff.core import FluffConfig
+    from sqlfluff.core.parser import Lexer
+    segs, errs = Lexer(config=FluffConfig(overrides={"dialect": "ansi"})).lex(tf)
+    problems = []
+    toks = [s for s in segs if not s.is_meta]
+    if "".join(s.raw for s in toks) != tf.templated_str:
+        problems.append(f"tokens concatenate to {''.join(s.raw for s in toks)!r}, rendered is {tf.templated_str!r}")
+    tp, sp, cov = 0, 0, set()
+    for s in segs:
+        ts, ss = s.pos_marker.templated_slice, s.pos_marker.source_slice
+        if not (0 <= ss.start <= ss.stop <= len(src)):
+            problems.append(f"source slice {ss} of {s.raw!r} out of bounds")
+        if not s.is_meta:
+            if ts.start != tp or ts.stop - ts.start != len(s.raw):
+                problems.append(f"templated slice {ts} of {s.raw!r} not contiguous")
+            tp = ts.stop
+            if ss.start < sp:
+                problems.append(f"source position decreases at {s.raw!r}: {ss}")
+            sp = ss.start
+        if not s.is_meta or s.is_type("placeholder"):
+            cov |= set(range(ss.start, ss.stop))
+    missing = sorted(set(range(len(src))) - cov)
+    if missing:
+        problems.append(f"source characters at offsets {missing} ({''.join(src[i] for i in missing)!r}) are covered by no token or placeholder")
+    return problems
+
+
+def known_collide(entry):
+    tf = run_process(entry["replay"]["source"], entry["replay"]["context"])
+    p = lex_problems(entry["replay"]["source"], tf)
+    return "; ".join(p[:2]) if p else None
+
+
+def process_units(prop, tier):
+    n = 3 if tier == "quick" else 4
+    return [Unit(
+        name=f"{prop.lower()}.python_process[<= {n} pieces]",
+        functions=["sqlfluff.core.templaters.python.PythonTemplater.process/slice_file/_split_invariants/_split_uniques_coalesce_rest/"
+                   "_check_for_wrapped", "IntermediateFileSlice.coalesce/try_simple/trim_ends"],
+        bounds={"template": f"every concatenation of <= {n} pieces from {PIECES}", "x": XVALS, "y": YVALS},
+        make=make_process(n, prop), replay=replay_process(n, prop),
+        stubs=["none: real templater on real strings; template and context are solver-forked"],
+        assumptions=["a templater without control flow must map the source left to right without gaps (our reading of 'consistent')"],
+        outside=["templates outside this piece alphabet"],
+        witnesses_required=["rendered", "empty_rendering_field"], sharded=True, timeout_s=600 if tier == "quick" else 2400)]
